@@ -483,7 +483,12 @@ fn holder_thread(map: &Map, cfg: &RoundCfg, tid: usize, seed: u64, bar: &Barrier
                     st.held += 1;
                     if !r.verify() || r.id != *id || r.k != *k {
                         if st.failures.len() < 4 {
-                            st.failures.push(format!("key reference (id {id}, key {k}) changed while its guard was alive: now id {} key {}", r.id, r.k));
+                            st.failures.push(format!(
+                                "key reference (id {id}, key {k}) obtained under a guard that is still alive no longer reads as that key: now id {} key {}{}",
+                                r.id,
+                                r.k,
+                                if led.is_live(*id) == Some(false) { " (the ledger says this key instance has been dropped: its memory was reclaimed under the guard)" } else { "" }
+                            ));
                         }
                     }
                 }
